@@ -87,7 +87,8 @@ class C02(Check):
             'versions; MBR slot/boot-flag/protective combinations; clean '
             'images of the null-check formats) delivered by one of: bare '
             'inspector, InspectWrapper (iterator / read()), '
-            'detect_file_format through the open() seam, the CLI in-process '
+            'detect_file_format and <Inspector>.from_file through the '
+            'open() seam, the CLI in-process '
             '(a sample as a real subprocess), or a safety check body '
             'replaced by a raising callable; 30% truncated. distinct = '
             'distinct (layout, label, trait reasons, delivery mode, '
@@ -116,8 +117,9 @@ class C02(Check):
     def gen(self, st, tier, index, total):
         rng = st('content')
         mrng = st('mode')
-        mode = core.weighted(mrng, [('stream', 68), ('checkfault', 8),
-                                    ('detect', 8), ('cli', 16)])
+        mode = core.weighted(mrng, [('stream', 60), ('checkfault', 8),
+                                    ('detect', 8), ('cli', 16),
+                                    ('fromfile', 8)])
         rec, label, reasons, hint = T.gen_traited(rng)
         case = {'mode': mode, 'content': rec, 'label': label,
                 'reasons': reasons, 'hint': hint}
@@ -133,7 +135,7 @@ class C02(Check):
                              'exc': mrng.choice(EXC_KINDS)}
             return case
         data, info = F.build(rec)
-        if mode in ('stream', 'detect', 'cli') and \
+        if mode in ('stream', 'detect', 'cli', 'fromfile') and \
                 st('trunc').random() < 0.3:
             trng = st('trunc')
             b = info['boundaries'] + [info.get('carrier_end', len(data))]
@@ -460,6 +462,53 @@ class C02(Check):
                     pass
         return ['detect', bool(f.get('short'))]
 
+    # <Inspector>.from_file through the open() seam
+    def _run_fromfile(self, case, data, info, label, log):
+        m = imgsim.fi()
+        f = case['file']
+        fmt = info['fmt']
+        path = '/sim/image'
+        files = self._open_seam(path, data, f)
+        try:
+            try:
+                insp = m.ALL_FORMATS[fmt].from_file(path)
+                out = 'ok'
+            except m.ImageFormatError:
+                insp, out = None, 'ImageFormatError'
+            except OSError as e:
+                insp, out = None, 'OSError:%s' % e.errno
+            except Exception as e:
+                insp, out = None, core.exc_name(e)
+        finally:
+            self._close_seam()
+        sf = files[0] if files else None
+        fired = bool(sf and f.get('fault') and sf.reads > f['fault']['at'])
+        if f.get('short'):
+            self.bump('faults', 'file_short_read')
+        if fired:
+            self.bump('faults', 'file_read_error')
+        self.bump('sim', 'bytes', sf.pos if sf else 0)
+        log.add('from_file', fmt, out, sf.reads if sf else None, fired)
+        if fired and insp is None:
+            return ['fromfile', 'eio']
+        if fired:
+            self.bump('probes', 'read_error_swallowed')
+            label = 'none'
+        if out.startswith('EXC:'):
+            self.viol('from_file_raised_other', exc=out, inspector=fmt)
+            return ['fromfile', out]
+        if insp is None:
+            if label == 'accept' and not fired:
+                self.viol('clean_image_rejected', inspector=fmt, result=out,
+                          where='from_file')
+            return ['fromfile', 'refused']
+        res = imgsim.q_safety(insp)
+        log.add('safety', res)
+        self.judge(res, imgsim.q_attr(insp, 'complete'),
+                   imgsim.q_attr(insp, 'format_match'), label, case, info,
+                   sf.pos if fired else len(data), 'from_file')
+        return ['fromfile', bool(f.get('short'))]
+
     # the CLI
     def _run_cli(self, case, data, info, label, log):
         f = case['file']
@@ -553,9 +602,6 @@ class C02(Check):
 
     # ------------------------------------------------------------ findings
     def finding(self, case, v):
-        data, info = F.build(case['content'])
-        if info.get('text') and v['cls'] in ('unsafe_image_accepted',):
-            return 'F1'
         return None
 
     def subkey(self, case, v):
